@@ -975,6 +975,11 @@ func (s *runtimeState) loadAuth(compiled config.Compiled) error {
 				return out
 			}
 		}
+		// A reload must not forget which nonces were already honoured.
+		s.mu.RLock()
+		prev := s.hmacByRoute[rt.Path]
+		s.mu.RUnlock()
+		auth.InheritReplayState(prev)
 		hmacByRoute[rt.Path] = auth
 	}
 
